@@ -138,10 +138,15 @@ func (c16) Gen(rs uint64, tier string, race bool) interface{} {
 		ns = 24
 	}
 	rate := []float64{0, 0.02, 0.05, 0.15}[r.Intn(4)]
+	lowerFlanks := r.Chance(0.12)
 	verb := r.Intn(ns)
 	for i := 0; i < ns; i++ {
 		left := randNt(r, r.Intn(16))
 		right := randNt(r, r.Intn(16))
+		if lowerFlanks {
+			// soft-masked flanks: the ORF itself stays as it is
+			left, right = strings.ToLower(left), strings.ToLower(right)
+		}
 		b := []byte(c.Orf)
 		vstart := len(left)
 		if i != verb {
@@ -190,7 +195,7 @@ func (c16) Gen(rs uint64, tier string, race bool) interface{} {
 		c.Verbatim = append(c.Verbatim, vstart)
 	}
 	c.RunFirst = r.Bool()
-	if r.Chance(0.25) {
+	if r.Chance(0.25) && !lowerFlanks { // (the 2-nt sequence must still find a residue of the reference to match: upper case only)
 		c.BadAt = r.Intn(ns + 1)
 		switch r.Intn(4) {
 		case 0:
@@ -331,6 +336,7 @@ func (c *C16Case) runPhase(ctx *Ctx, cpus int, cfg SchedCfg) (pr phaseRun) {
 
 // longestORFLen: longest ATG ... first in-frame TAA|TGA|TAG, stop included.
 func longestORFLen(s string) int {
+	s = strings.ReplaceAll(strings.ToUpper(s), "U", "T")
 	best := 0
 	for i := 0; i+3 <= len(s); i++ {
 		if s[i:i+3] != "ATG" {
